@@ -733,6 +733,46 @@ def apply_attribute_renames(tree, ren):
     return n
 
 
+def _lower_walrus_tests(stmts):
+    """`if (x := E) <op> ...:`  ->  `x = E` ; `if x <op> ...:`  when the walrus is the first thing the test
+    evaluates (left operand of the comparison / operand of `not` / first operand of and-or / the whole test).
+    `elif` arms are left alone (the assignment would move in front of the earlier tests)."""
+    def first_walrus(e):
+        if isinstance(e, ast.NamedExpr):
+            return e
+        if isinstance(e, ast.Compare):
+            return first_walrus(e.left)
+        if isinstance(e, ast.UnaryOp):
+            return first_walrus(e.operand)
+        if isinstance(e, ast.BoolOp):
+            return first_walrus(e.values[0])
+        return None
+
+    out = []
+    for s in stmts:
+        for fld in ("body", "orelse", "finalbody"):
+            b = getattr(s, fld, None)
+            if isinstance(b, list) and b and isinstance(b[0], ast.stmt) and not isinstance(s, (ast.FunctionDef, ast.AsyncFunctionDef, ast.ClassDef)):
+                setattr(s, fld, _lower_walrus_tests(b))
+        if isinstance(s, ast.Try):
+            for h in s.handlers:
+                h.body = _lower_walrus_tests(h.body)
+        w = first_walrus(s.test) if isinstance(s, ast.If) else None
+        if w is not None and isinstance(w.target, ast.Name):
+            out.append(ast.copy_location(ast.Assign(targets=[ast.Name(id=w.target.id, ctx=ast.Store())], value=w.value, lineno=s.lineno), s))
+
+            class R(ast.NodeTransformer):
+                def visit_NamedExpr(self_, node):
+                    if node is w:
+                        return ast.copy_location(ast.Name(id=w.target.id, ctx=ast.Load()), node)
+                    return self_.generic_visit(node)
+            s.test = R().visit(s.test)
+            out.append(s)
+        else:
+            out.append(s)
+    return out
+
+
 def _module_dicts(tree):
     """module-level NAME = {K: V, ...} displays whose keys are constants / dotted names, bound exactly once"""
     out, count = {}, {}
@@ -801,6 +841,10 @@ def normalize_module(tree: ast.Module):
     sites, set of helper qualnames that were inlined)."""
     total = 0
     used_all = set()
+    for n in ast.walk(tree):
+        if isinstance(n, (ast.FunctionDef, ast.AsyncFunctionDef)) and any(isinstance(x, ast.NamedExpr) for x in ast.walk(n)):
+            n.body = _lower_walrus_tests(n.body)
+            ast.fix_missing_locations(n)
     mod_funcs = [n for n in tree.body if isinstance(n, (ast.FunctionDef, ast.AsyncFunctionDef))]
     mod_helpers = _collect_helpers(mod_funcs, "function", None)
 
